@@ -26,6 +26,10 @@ def run(ck, prog):
         "population and to every ==/!= against a list display; a store-pattern reading of swapRes; constructor-call discipline.")
     ck.assumptions += ["rearrangement under every random outcome is NOT decided for permute_block_swap / permute_cluster_charges"]
     E = Effects(prog, cut=CONDITIONAL_CALLEES)
+    # a child built from a string (full_shuffle, the block moves) gets its charge bookkeeping from the constructor: on every path on which the
+    # constructor derives the pattern it must be the per-residue class map, whatever delta-max is carried along
+    from props.common import check_charge_map
+    ck.attempt(check_charge_map, ck, prog)
     ck.attempt(_eff, ck, prog, E)
     ck.attempt(_use_frozen, ck, prog)
     ck.attempt(_types, ck, prog)
